@@ -53,6 +53,10 @@ class ColumnQuery(Query):
     def is_leaf(self):
         return True
 
+    def estimate_size(self, ixreader):
+        # Any document may have a matching value
+        return ixreader.doc_count()
+
     def matcher(self, searcher, context=None):
         fieldname = self.fieldname
         condition = self.condition
